@@ -15,6 +15,10 @@ RULE = ("case = (frame 2..16 bytes; a forest of signals: static signals, a root 
         "Every decode/encode is observed on objects with a history: the first use of a frame is made with its signals somewhere else "
         "(then moved into place by assignment), each call is repeated, and once more after another detour; an encode request is also "
         "made with one values dict used for several selector values. A result that depends on that history is a failure. "
+        "A third of the frames has signal names that are related to each other (differing only in upper/lower case, one a prefix "
+        "or suffix of another, with underscores and digits), and a third has signals that carry what is no business of the group "
+        "selection: non-zero start values (initial_value / GenSigStartValue), declared limits (also ones that exclude the start "
+        "value), value tables, units, comments, receivers. "
         "Non-trivial = distinct case with at least one bound signal.")
 PARTIAL = ["the DBC text -> bookkeeping step is modelled only for the multiplex indicators and SG_MUL_VAL_ (the full line model is C05's)",
            "encoding of extended-multiplexed frames raises EncodingComplexMultiplexed by design and is not part of the property"]
@@ -131,6 +135,79 @@ def steer_payload(rng, nbytes, nodes):
     return data
 
 
+STEMS = ["temp", "mode", "sub", "val", "sig", "mux", "abc", "st", "g", "mx", "m", "sg"]
+
+
+def related_names(rng, n):
+    """n pairwise different names that are close to each other: the same letters in other case, one name the beginning or the end
+    of another, underscores and digits (identifiers of a DBC file are case sensitive, and nothing is found by its beginning)"""
+    stems = list(STEMS)
+    rng.shuffle(stems)
+    pool = []
+    k = 0
+    while len(pool) < n + 2:
+        st = stems[k % len(stems)] + ("" if k < len(stems) else str(k))
+        k += 1
+        cap = st.capitalize()
+        for v in (st, st.upper(), cap, cap.swapcase(), st + "_", "_" + st, st + st.upper(), st + "1", st.upper() + "1",
+                  st + "_1", st.upper() + "_1", st + "10", "x" + st, "X" + st.upper()):
+            if v not in pool:
+                pool.append(v)
+    # a window of the pool, so that the names of one frame share few stems
+    first = rng.randrange(0, len(pool) - n + 1)
+    names = pool[first:first + n]
+    rng.shuffle(names)
+    return names
+
+
+def rename(c, mapping):
+    f = lambda x: mapping.get(x, x)
+    nodes = [dict(n, s=[f(n["s"][0])] + list(n["s"][1:]), parent=(None if n["parent"] is None else f(n["parent"]))) for n in c["nodes"]]
+    mulvals = [[f(a), f(b), rs] for a, b, rs in c["mulvals"]]
+    d = None if c["d"] is None else [[f(k), v] for k, v in c["d"]]
+    return dict(c, nodes=nodes, mulvals=mulvals, d=d)
+
+
+def dress(rng, c):
+    """what the selection of groups must not depend on: how the signals are called, and what else they carry"""
+    if rng.random() < 0.35:
+        old = [n["s"][0] for n in c["nodes"]]
+        c = rename(c, dict(zip(old, related_names(rng, len(old)))))
+    if rng.random() < 0.35:
+        deco = {}
+        for n in c["nodes"]:
+            if rng.random() < 0.6:
+                lo, hi = F.raw_range(n["s"])
+                dd = {}
+                k = rng.random()
+                if k < 0.7:
+                    # start value as raw number (never 0: that is what every signal has anyway)
+                    iv = rng.choice([lo, hi, 1, hi // 2 + 1, rng.randint(lo, hi), rng.randint(lo, hi)])
+                    dd["iv"] = iv if iv != 0 else hi
+                k = rng.random()
+                if k < 0.3:
+                    dd["lim"] = [lo, hi]                      # the limits of the raw range, declared
+                elif k < 0.45 and hi - lo >= 3:
+                    dd["lim"] = [lo + 1, hi - 1]              # narrower (a start value at the border is outside)
+                if rng.random() < 0.3:
+                    dd["vt"] = sorted({max(0, lo), rng.randint(max(0, lo), hi), hi})
+                if rng.random() < 0.3:
+                    dd["unit"] = rng.choice(["m/s", "V", "%", "rpm"])
+                if rng.random() < 0.3:
+                    dd["cm"] = "about %s" % n["s"][0]
+                if rng.random() < 0.3:
+                    dd["rx"] = rng.choice([["E1"], ["E1", "E2"]])
+                if dd:
+                    deco[n["s"][0]] = dd
+        if deco:
+            c = dict(c, deco=deco)
+    return c
+
+
+def phys(scaled, raw):
+    return 2 * raw + 1 if scaled else raw
+
+
 def gen(rng, tier, shard, nshards):
     total = {"quick": 6000, "thorough": 100000}[tier]
     dmax = 3 if tier == "quick" else 4
@@ -150,8 +227,8 @@ def gen(rng, tier, shard, nshards):
                     d.append([n["s"][0], F.rand_raw(rng, n["s"])])
             rng.shuffle(d)
         pre = [steer_payload(rng, nbytes, nodes) for _ in range(rng.choice([0, 0, 1, 2, 3]))]
-        yield {"op": "mux", "c": {"size": nbytes, "nodes": nodes, "mulvals": mulvals, "src": src,
-                                  "data": steer_payload(rng, nbytes, nodes), "d": d, "pre": pre}}
+        c = {"size": nbytes, "nodes": nodes, "mulvals": mulvals, "src": src, "data": steer_payload(rng, nbytes, nodes), "d": d, "pre": pre}
+        yield {"op": "mux", "c": dress(rng, c)}
 
 
 def neighbours(case, rng, shard, nshards):
@@ -161,17 +238,37 @@ def neighbours(case, rng, shard, nshards):
 
 
 def dbc_text(c):
-    lines = ['VERSION ""', "", "NS_ :", "", "BS_:", "", "BU_: ", "", "BO_ 291 F: %d Vector__XXX" % c["size"]]
+    deco = c.get("deco") or {}
+    present = {n["s"][0] for n in c["nodes"]}
+    deco = {k: v for k, v in deco.items() if k in present}
+    ecus = sorted({e for dd in deco.values() for e in dd.get("rx", [])})
+    scaled = bool((c["size"] + len(c["nodes"])) % 2)
+    lines = ['VERSION ""', "", "NS_ :", "", "BS_:", "", "BU_: " + " ".join(ecus), "", "BO_ 291 F: %d Vector__XXX" % c["size"]]
     for n in c["nodes"]:
         name, start, size, little, signed = n["s"][:5]
         tag = n["tag"]
         t = "" if tag is None else ("M" if tag == "M" else ("m%d" % tag[1] + ("M" if tag[0] == "mM" else "")))
         dstart = start if little else (8 * (start // 8) + 7 - start % 8)
         # (every other frame has scaled signals, the multiplexers too: the selector is the raw value)
-        scale = "(2,1)" if (c["size"] + len(c["nodes"])) % 2 else "(1,0)"
-        lines.append(' SG_ %s %s: %d|%d@%d%s %s [0|0] "" Vector__XXX' % (
-            name, t + " " if t else "", dstart, size, 1 if little else 0, "-" if signed else "+", scale))
+        scale = "(2,1)" if scaled else "(1,0)"
+        dd = deco.get(name, {})
+        lim = "[%d|%d]" % (phys(scaled, dd["lim"][0]), phys(scaled, dd["lim"][1])) if "lim" in dd else "[0|0]"
+        lines.append(' SG_ %s %s: %d|%d@%d%s %s %s "%s" %s' % (
+            name, t + " " if t else "", dstart, size, 1 if little else 0, "-" if signed else "+", scale, lim,
+            dd.get("unit", ""), ",".join(dd["rx"]) if "rx" in dd else "Vector__XXX"))
     lines.append("")
+    for name, dd in deco.items():
+        if "cm" in dd:
+            lines.append('CM_ SG_ 291 %s "%s";' % (name, dd["cm"]))
+    if any("iv" in dd for dd in deco.values()):
+        lines.append('BA_DEF_ SG_  "GenSigStartValue" FLOAT 0 100000000000;')
+        lines.append('BA_DEF_DEF_  "GenSigStartValue" 0;')
+        for name, dd in deco.items():
+            if "iv" in dd:
+                lines.append('BA_ "GenSigStartValue" SG_ 291 %s %d;' % (name, dd["iv"]))
+    for name, dd in deco.items():
+        if "vt" in dd:
+            lines.append("VAL_ 291 %s %s ;" % (name, " ".join('%d "v%d"' % (k, k) for k in reversed(dd["vt"]))))
     for k, (sg, mx, rs) in enumerate(c["mulvals"]):
         # (the blank behind the comma of a range list is optional)
         lines.append("SG_MUL_VAL_ 291 %s %s %s;" % (sg, mx, (", " if k % 2 else ",").join("%d-%d" % (a, b) for a, b in rs)))
@@ -191,8 +288,22 @@ def build(c):
         name, start, size, little, signed = n["s"][:5]
         mp = "Multiplexor" if n["mux"] else (n["ranges"][0][0] if n["parent"] is not None else None)
         sg_ = cm.Signal(name, start_bit=start, size=size, is_little_endian=little, is_signed=signed, multiplex=mp)
-        if (c["size"] + len(c["nodes"])) % 2:
+        scaled = bool((c["size"] + len(c["nodes"])) % 2)
+        if scaled:
             sg_.factor, sg_.offset = 2, 1
+        dd = (c.get("deco") or {}).get(name, {})
+        if "lim" in dd:
+            sg_.min, sg_.max = phys(scaled, dd["lim"][0]), phys(scaled, dd["lim"][1])
+        if "iv" in dd:
+            sg_.initial_value = phys(scaled, dd["iv"])
+        for k in dd.get("vt", []):
+            sg_.add_values(k, "v%d" % k)
+        if "unit" in dd:
+            sg_.unit = dd["unit"]
+        if "cm" in dd:
+            sg_.add_comment(dd["cm"])
+        for e in dd.get("rx", []):
+            sg_.add_receiver(e)
         fr.add_signal(sg_)
     fr.multiplex_signals()
     return fr, ""
@@ -230,6 +341,18 @@ def features(case, impl):
     yield "kind=" + ("extended" if ext else "simple")
     nm = sum(1 for n in c["nodes"] if n["mux"])
     yield "multiplexers=%d" % nm
+    names = [n["s"][0] for n in c["nodes"]]
+    if len({x.casefold() for x in names}) < len(names):
+        yield "names-differing-only-in-case"
+    if any(a != b and (b.startswith(a) or b.endswith(a)) for a in names for b in names):
+        yield "a-name-is-the-beginning-or-end-of-another"
+    deco = c.get("deco") or {}
+    if any("iv" in dd for dd in deco.values()):
+        yield "signals-with-start-value"
+        if c["d"] is not None:
+            yield "encode-request-with-start-values-in-the-frame"
+    if any(k in dd for dd in deco.values() for k in ("lim", "vt", "unit", "cm", "rx")):
+        yield "signals-with-limits-tables-units-comments-receivers"
     yield "encode-request" if c["d"] is not None else "decode-only"
     yield "earlier-decodes-on-the-same-frame=%d" % len(c.get("pre", []))
     if "ok" in impl["dec"]:
@@ -253,3 +376,10 @@ def shrink_candidates(case):
             mv = [m for m in c["mulvals"] if m[0] != n["s"][0]]
             d = None if c["d"] is None else [kv for kv in c["d"] if kv[0] != n["s"][0]]
             yield {"op": "mux", "c": dict(c, nodes=nn, mulvals=mv, d=d)}
+    deco = c.get("deco") or {}
+    for name in deco:
+        yield {"op": "mux", "c": dict(c, deco={k: v for k, v in deco.items() if k != name})}
+    for name, dd in deco.items():
+        for key in dd:
+            if len(dd) > 1:
+                yield {"op": "mux", "c": dict(c, deco=dict(deco, **{name: {k: v for k, v in dd.items() if k != key}}))}
